@@ -12,7 +12,7 @@ from . import c08_impl as im
 from .core import Coverage, Violation
 
 from syne_tune.optimizer.schedulers.searchers.bayesopt.gpautograd.posterior_state import (  # noqa: E402
-    IncrementalUpdateGPPosteriorState, GaussProcPosteriorState)
+    IncrementalUpdateGPPosteriorState)
 from syne_tune.optimizer.schedulers.searchers.bayesopt.gpautograd.gp_regression import (  # noqa: E402
     GaussianProcessRegression)
 
